@@ -56,6 +56,9 @@ func c17LimitsFor(tier string) c17Limits {
 	if tier == "thorough" {
 		return c17Limits{exhaustive: 12000, sampled: 1500, randomPlans: 60, genPerFmt: 60, mutants: 400, largeSizes: []int{70000, 140000, 200000}}
 	}
+	if tier == "smoke" { // determinism self-test only
+		return c17Limits{exhaustive: 1200, sampled: 40, randomPlans: 4, genPerFmt: 2, mutants: 12}
+	}
 	return c17Limits{exhaustive: 6000, sampled: 300, randomPlans: 10, genPerFmt: 8, mutants: 40, largeSizes: []int{70000}}
 }
 
@@ -251,6 +254,7 @@ func RunC17(cfg Config) (*ShardResult, error) {
 					o, sr := EvalRead(reader, d.Data, p)
 					res.Evaluations++
 					res.SimEvents += int64(sr.St.Reads + sr.St.Seeks)
+					res.Note(dh, reader, planKey(p), o.Key(), fmt.Sprint(sr.St.Reads, sr.St.Seeks))
 					dataReads := sr.St.Reads - sr.St.ZeroReads
 					if (dataReads >= 3 || sr.St.ZeroReads > 0 || sr.St.EOFWithData > 0) && seen.add(key) {
 						res.Distinct++
